@@ -326,7 +326,7 @@ func runSpec(r *core.Run, rtl bool) int {
 			}
 			seenInputs[key] = true
 			matched := false
-			for s := 0; s <= len(runes); s++ {
+			for s := 0; s <= len(runes); s += offsetStep(len(runes), s) {
 				detail, got, want, incon := specCompare(c, runes, s)
 				l.Eval(1)
 				if incon != "" {
